@@ -107,13 +107,43 @@ def run_k2(facts, ctx, inv=None, watch=()):
     I.ctx_label = ctx.get("label")
     I.watch = set(watch)
     st = State()
-    msg = frame(ctx["L"], dict(ctx.get("fixed") or {}))
-    mref = ref_to(I, st, msg)
     res = K2Result()
     res.I = I
     res.ctx = ctx
     res.diverged = None
     res.stores = []
+    res.gate = None
+    res.pre = None
+    res.gate_preds = []
+    I.side["gate_preds"] = res.gate_preds
+    msg = frame(ctx["L"], dict(ctx.get("fixed") or {}))
+    if ctx.get("via_line", True):
+        # the frame reaches the decoder as a text line: `digits` hex digits (a 12-digit receiver time stamp may precede
+        # the frame) with arbitrary non-hex decoration in between; the accept gates are part of the context
+        ndig = ctx.get("digits", ctx["L"])
+        prefix = []
+        for i in range(max(0, ndig - ctx["L"])):
+            prefix.append(IntV("u32", [("b", 1000 + 4 * i + 4 - k) for k in range(4)], None, None))
+        digs = prefix + list(msg.elems)
+        if ndig < ctx["L"]:
+            digs = list(msg.elems)[:ndig]
+        line = StrV("line", digits=digs)
+        lref = ref_to(I, st, line)
+        try:
+            st, mo = I.run_body(st, facts.one("get_message"), [lref])
+        except Diverge as e:
+            res.diverged = "definite panic in get_message"
+            res.gate = "panic"
+            return res
+        res.gate = mo
+        res.gate_warnings = list(I.warnings)
+        if not (isinstance(mo, EnumV) and mo.may("Some")):
+            res.diverged = "rejected by get_message"
+            return res
+        I.install_guard(st, mo.variants["Some"][1])
+        msg = mo.payload("Some")
+        res.message = msg
+    mref = ref_to(I, st, msg)
     row0 = pre_row(facts, ctx, inv)
     res.pre = row0
     row_cell = I.new_cell(st, row0)
